@@ -1102,6 +1102,28 @@ func (x *Exec) enterLoop(fn *ssa.Function, fc *FuncContract, li *loopInfo, st *S
 			}
 		}
 	}
+	// ghost variables updated by a call inside the loop
+	if x.fc != nil && fn == x.fn {
+		for _, g := range x.fc.Ghosts {
+			old, ok := ns.ghost[g.Name]
+			if !ok {
+				continue
+			}
+			touched := false
+			for b := range li.blocks {
+				for _, in := range b.Instrs {
+					if ci, ok := in.(ssa.CallInstruction); ok {
+						if f, ok := ci.Common().Value.(*ssa.Function); ok && g.On[lastName(funcKey(f))] != nil {
+							touched = true
+						}
+					}
+				}
+			}
+			if touched {
+				ns.ghost[g.Name] = x.c.Fresh(fmt.Sprintf("L%d_ghost_%s", li.ordinal, g.Name), old.sort)
+			}
+		}
+	}
 	gensBefore := x.gens
 	x.applyEffects(ns, eff)
 	if x.loopTags == nil {
@@ -1199,11 +1221,14 @@ func (x *Exec) checkInvariant(fn *ssa.Function, fc *FuncContract, li *loopInfo, 
 			if !ok {
 				continue // mentions locals that do not exist on this path: another case's clause
 			}
-			if x.triviallyTrue(st, t) {
-				continue
-			}
 			if x.stepApplied == nil {
 				x.stepApplied = map[string]int{}
+			}
+			if x.triviallyTrue(st, t) {
+				if top := stripParen(cl.Expr); !(top.Op == "binary" && top.Name == "==>") {
+					x.stepApplied[cl.Text]++ // an unconditional clause that holds by simplification did apply
+				}
+				continue
 			}
 			x.stepApplied[cl.Text]++
 			x.oblige(st, "step", fmt.Sprintf("loop %d step: %s [back edge from %s]", li.ordinal, cl.Text, x.pos(pos)), pos, t, cl.Props, cl.Text)
